@@ -108,10 +108,43 @@ func (sp *SpinLock) IsLocked(key string) bool {
 	return locked
 }
 
+// tryShared joins or creates the shared lock on key. Taking the map entry and
+// counting the holder is one step with respect to releaseShared, otherwise a
+// reader that saw the entry just before its last holder removed it would hold
+// nothing, and its own unlock would remove a writer's exclusive entry.
+func (sp *SpinLock) tryShared(key string) bool {
+	sp.refCounter.mu.Lock()
+	defer sp.refCounter.mu.Unlock()
+	if lkType, occupied := sp.m.LoadOrStore(key, sharedLock); occupied && lkType != sharedLock {
+		return false
+	}
+	sp.refCounter.ctMap[key]++
+	return true
+}
+
+// releaseShared drops one holder of the shared lock on key and removes the map
+// entry with the last one, in one step with respect to tryShared.
+func (sp *SpinLock) releaseShared(key string) {
+	sp.refCounter.mu.Lock()
+	defer sp.refCounter.mu.Unlock()
+	sp.refCounter.ctMap[key]--
+	if sp.refCounter.ctMap[key] <= 0 {
+		delete(sp.refCounter.ctMap, key)
+		sp.m.Delete(key)
+	}
+}
+
 //TryLock try to lock some keys
 func (sp *SpinLock) TryLock(lockKeys []*LockKey) ([]*LockKey, bool) {
 	succLocked := []*LockKey{}
 	for _, k := range lockKeys {
+		if k.lockType == sharedLock {
+			if !sp.tryShared(k.key) {
+				return succLocked, false //读写冲突
+			}
+			succLocked = append(succLocked, k)
+			continue
+		}
 		if lkType, occupiedByOthers := sp.m.LoadOrStore(k.key, k.lockType); occupiedByOthers {
 			if lkType == sharedLock && k.lockType == sharedLock { //读读共享
 				sp.refCounter.Add(k.key)
@@ -135,6 +168,10 @@ func (sp *SpinLock) Unlock(lockKeys []*LockKey) {
 	for i := N - 1; i >= 0; i-- {
 		lkType := lockKeys[i].lockType
 		k := lockKeys[i].key
+		if lkType == sharedLock {
+			sp.releaseShared(k)
+			continue
+		}
 		if lkType == exclusiveLock {
 			sp.m.Delete(k)
 		} else if lkType == sharedLock { //共享锁要考虑引用计数
